@@ -42,7 +42,8 @@ DECL_TAGS = ["class", "tparam", "field", "func", "param", "var", "super", "varan
 
 
 PLUGIN = "c12_plugin"
-ROUNDS_QUICK = {"gen": 2, "erase": 3, "more": 4, "budget_s": 15}
+ROUNDS_QUICK = {"gen": 2, "erase": 2, "more": 3, "budget_s": 10}
+ROUNDS_SMALL_QUICK = {"gen": 3, "erase": 3, "more": 4, "budget_s": 12}
 ROUNDS_THOROUGH = {"gen": 3, "erase": 4, "more": 6, "budget_s": 40}
 SITE_KINDS = ("var_type", "ret_type", "new_type_argument", "call_type_argument")
 # a site kind is visible in a language iff its translator prints it at all (Java / Groovy never print the explicit
@@ -342,6 +343,7 @@ def run_stream(run, specs, found, label, budget_s=10 ** 6):
     model_diffs, direct_bad, done = [], [], 0
     for spec, r in stream_results(specs, time.time() + budget_s, workers):
         done += 1
+        t_judge = time.time()
         if "cutoff" in r:
             run.tally("pipeline_cutoff", r["cutoff"])
         if "exception" in r:
@@ -400,6 +402,8 @@ def run_stream(run, specs, found, label, budget_s=10 ** 6):
                 for leg, detail in model_judge(run, L, answers[off:off + n], text, inv, lit):
                     model_diffs.append((spec, stage, L, leg, detail))
                 run.tally("model_programs_compared", L)
+        run.cov["main_process_judge_seconds"] = round(run.cov.get("main_process_judge_seconds", 0) + time.time() - t_judge, 1)
+        run.cov["worker_seconds"] = round(run.cov.get("worker_seconds", 0) + sum((r.get("times") or {}).values()), 1)
     run.cov["programs_done_within_budget"] = run.cov.get("programs_done_within_budget", 0) + done
     run.log("%s: %d of %d programs within the budget, %d model differences, %d texts with a direct failure"
             % (label, done, len(specs), len(model_diffs), len(direct_bad)))
@@ -458,9 +462,13 @@ def check(run):
     depths = [3, 4, 4, 5, 5, 6] if quick else [3, 4, 5, 5, 6, 6]   # depth 7 takes minutes per program on a loaded machine
     rounds = ROUNDS_QUICK if quick else ROUNDS_THOROUGH
     specs = make_specs(run.rng, nprog, cap, depths, rounds)
-    run.cov["extra_overwrite_rounds"] = dict(rounds)
+    # small programs first: cheap to generate, so that many overwritten sites are reached within the budget
+    nsmall, small_rounds = (40, ROUNDS_SMALL_QUICK) if quick else (600, ROUNDS_THOROUGH)
+    specs = make_specs(run.rng, nsmall, cap, [3], small_rounds) + specs
+    run.cov["extra_overwrite_rounds"] = {"programs": dict(rounds), "small_programs(max_depth 3)": dict(small_rounds),
+                                         "n_small_programs": nsmall}
     model_diffs, direct_bad = run_stream(run, specs, found, "pipeline stream", budget)
-    run.cov["programs"] = nprog
+    run.cov["programs"] = nprog + nsmall
     run.cov["stream_budget_s"] = budget
     run.cov["exhaustive"] = False
     run.cov["rule"] = (
